@@ -45,6 +45,8 @@ class CFG:
         self.exit = self.new("exit", tag="return")
         self.raise_exit = self.new("raise", tag="raise")
         self.extra_exits = {}
+        self.loop_heads = {}  # ast.While/ast.For -> head node
+        self.loop_afters = {}
 
     def new(self, kind, node=None, tag=None):
         n = Node(len(self.nodes), kind, node, tag)
@@ -274,9 +276,11 @@ class _Builder:
         if isinstance(st, ast.While):
             head = g.new("join", tag="while")
             head.ast = None
+            g.loop_heads[st] = head
             self.connect(ins, head)
             t, f = self.cond(st.test, [(head, None)])
             after = g.new("join", tag="after-while")
+            g.loop_afters[st] = after
             self.loops.append((head, after))
             o = self.stmts(st.body, t)
             self.loops.pop()
@@ -286,9 +290,11 @@ class _Builder:
             return [(after, None)]
         if isinstance(st, (ast.For, ast.AsyncFor)):
             head = g.new("for", st)
+            g.loop_heads[st] = head
             self.connect(ins, head)
             self._exc_edges(head)
             after = g.new("join", tag="after-for")
+            g.loop_afters[st] = after
             self.loops.append((head, after))
             o = self.stmts(st.body, [(head, "iter")])
             self.loops.pop()
